@@ -287,6 +287,9 @@ def main():
                     files.append(rel)
     rnd = random.Random(seed)
     todo = []
+    if opt("--from"):
+        todo = [dict((k, m[k]) for k in ("file", "pos", "len", "rep", "kind", "line", "before", "ctx")) for m in json.load(open(opt("--from")))]
+        files = []
     for f in sorted(files):
         src = open(os.path.join(REPO, f)).read()
         ms = mutants_of(f, src)
